@@ -14,6 +14,7 @@ a reference to a module-level function and ``OPAQUE`` for values the decision
 never depends on (message strings, loggers).
 """
 import ast
+from fractions import Fraction
 
 
 class Unsupported(Exception):
@@ -75,6 +76,66 @@ class CallRef:
 
 
 EXIT_CALLS = ('sys.exit', 'exit', 'quit', 'os._exit')
+
+
+def _is2d(x):
+    return isinstance(x, list) and x and all(isinstance(r, list) for r in x)
+
+
+def _np_sort(x, axis=-1):
+    if not isinstance(x, (list, tuple)):
+        raise Unsupported('sort of a non-sequence')
+    x = [list(r) if isinstance(r, (list, tuple)) else r for r in x]
+    if _is2d(x):
+        if axis in (-1, 1):
+            return [sorted(r) for r in x]
+        if axis == 0:
+            cols = [sorted(c) for c in zip(*x)]
+            return [list(r) for r in zip(*cols)]
+        if axis is None:
+            return sorted(v for r in x for v in r)
+        raise Unsupported('sort axis')
+    return sorted(x)
+
+
+def _np_reshape(x, shape, *rest):
+    if rest:
+        shape = (shape,) + tuple(rest)
+    flat = [v for r in x for v in (r if isinstance(r, (list, tuple))
+                                   else [r])]
+    if isinstance(shape, int):
+        shape = (shape,)
+    shape = list(shape)
+    if len(shape) == 1:
+        return flat
+    if len(shape) != 2:
+        raise Unsupported('reshape rank')
+    r, c = shape
+    if r == -1:
+        r = len(flat) // c
+    if c == -1:
+        c = len(flat) // r
+    if r * c != len(flat):
+        raise Unsupported('reshape size')
+    return [flat[i * c:(i + 1) * c] for i in range(r)]
+
+
+NP_MODELS = {
+    'np.sort': _np_sort, 'numpy.sort': _np_sort,
+    'sorted': lambda x, reverse=False: sorted(x, reverse=reverse),
+    'np.reshape': _np_reshape,
+    'np.array': lambda x, **k: [list(r) if isinstance(r, tuple) else r
+                                for r in x],
+    'np.asarray': lambda x, **k: list(x),
+    'min': lambda *a: min(*a), 'max': lambda *a: max(*a),
+    'np.min': lambda x: min(x), 'np.max': lambda x: max(x),
+    'abs': abs, 'int': int, 'float': lambda x: x,
+    'range': lambda *a: list(range(*a)),
+    'reversed': lambda x: list(reversed(x)),
+    'enumerate': lambda x: [(i, v) for i, v in enumerate(x)],
+    'zip': lambda *a: [tuple(t) for t in zip(*a)],
+    'np.flip': lambda x: list(reversed(x)),
+}
 
 
 class _Opaque:
@@ -151,6 +212,29 @@ class Evaluator:
             if isinstance(n.op, ast.Add) and type(a) is type(b) and \
                     isinstance(a, (str, list, tuple)):
                 return a + b
+            num = (int, float, Fraction)
+            if isinstance(a, num) and isinstance(b, num) and not isinstance(
+                    a, bool) and not isinstance(b, bool):
+                try:
+                    if isinstance(n.op, ast.Add):
+                        return a + b
+                    if isinstance(n.op, ast.Sub):
+                        return a - b
+                    if isinstance(n.op, ast.Mult):
+                        return a * b
+                    if isinstance(n.op, ast.Div):
+                        return Fraction(a) / Fraction(b)
+                    if isinstance(n.op, ast.FloorDiv):
+                        return a // b
+                    if isinstance(n.op, ast.Mod):
+                        return a % b
+                    if isinstance(n.op, ast.Pow) and isinstance(b, int):
+                        return a ** b
+                except ZeroDivisionError:
+                    raise Raised(n)
+            if isinstance(n.op, ast.Mult) and isinstance(a, list) and \
+                    isinstance(b, int):
+                return a * b
             return OPAQUE
         if isinstance(n, ast.UnaryOp) and isinstance(n.op, ast.Not):
             return not self.truth(self.ev(n.operand, env))
@@ -175,8 +259,27 @@ class Evaluator:
                     return False
                 left = right
             return True
+        if isinstance(n, ast.UnaryOp) and isinstance(n.op, ast.USub):
+            v = self.ev(n.operand, env)
+            return OPAQUE if v is OPAQUE else -v
+        if isinstance(n, ast.Slice):
+            parts = [None if x is None else self.ev(x, env)
+                     for x in (n.lower, n.upper, n.step)]
+            if any(p_ is OPAQUE for p_ in parts):
+                raise Unsupported('slice with undetermined bound')
+            return slice(*parts)
         if isinstance(n, ast.Subscript):
             base, key = self.ev(n.value, env), self.ev(n.slice, env)
+            if isinstance(key, slice) and isinstance(base, (list, tuple,
+                                                            str)):
+                return base[key]
+            if isinstance(key, tuple) and isinstance(base, list) and \
+                    len(key) == 2 and all(isinstance(k, (int, slice))
+                                          for k in key):
+                rows = base[key[0]]
+                if isinstance(key[0], int):
+                    return rows[key[1]]
+                return [r[key[1]] for r in rows]
             if base is OPAQUE or key is OPAQUE:
                 raise Unsupported('subscript of undetermined value: %s'
                                   % ast.unparse(n))
@@ -253,6 +356,18 @@ class Evaluator:
             if not isinstance(a, str):
                 raise Unsupported('dynamic import of undetermined module')
             return ModuleRef(a)
+        if fname in NP_MODELS:
+            args = [self.ev(a, env) for a in n.args]
+            kw = {k.arg: self.ev(k.value, env) for k in n.keywords}
+            if any(a is OPAQUE for a in args) or any(
+                    v is OPAQUE for v in kw.values()):
+                return OPAQUE
+            try:
+                return NP_MODELS[fname](*args, **kw)
+            except Unsupported:
+                raise
+            except Exception as e:
+                raise Unsupported('model of %s: %s' % (fname, e))
         if isinstance(f, ast.Name) and f.id in self.models:
             return self.models[f.id](*[self.ev(a, env) for a in n.args])
         if isinstance(f, ast.Name) and f.id in self.defs and not n.keywords:
@@ -316,7 +431,7 @@ class Evaluator:
             elif base is not OPAQUE:
                 raise Unsupported('store into %s' % ast.unparse(tgt))
         elif isinstance(tgt, ast.Attribute):
-            pass
+            self.attr_env[ast.unparse(tgt)] = val
         else:
             raise Unsupported('assignment target')
 
